@@ -158,7 +158,7 @@ impl Prop for P {
         if x == "ok" && ops.len() <= 300 {
             let qs2 = qs.clone();
             let answer = move |g: &Fst<Vec<u8>>| -> String { qs2.iter().map(|&q| g.get_key(q).map(|k| hex(&k)).unwrap_or("~".into())).collect::<Vec<_>>().join(",") };
-            if let Err(e) = crate::wrap::streamed_files_answer(0, &ops, f.as_bytes(), &res.join(","), &answer) {
+            if let Err(e) = crate::wrap::alt_builds_answer(0, &ops, f.as_bytes(), &res.join(","), &answer) {
                 x = e;
             }
         }
